@@ -22,7 +22,7 @@ CLASSES = {
     'ensemble_maps': {'quick': 160, 'thorough': 1200},
 }
 MIN_EVENTS = {'quick': {'assert:perm': 300, 'assert:map': 150, 'nonidentity_completion_orders': 30}}
-CASE_TIMEOUT = 60
+CASE_TIMEOUT = 180
 
 
 # ------------------------------------------------------------------ map zoo
